@@ -339,6 +339,9 @@ def observe(cfg, with_build=True):
       'seqs': [e.sequence_id for e in entries],
       'tags': sorted(([k, sorted(targets.tag_no(t) for t in ts)]
                       for k, ts in cfg.__argument_tags__.items() if ts), key=repr),
+      # the history of the callable ends with the callable the Buildable has now
+      'fn_last_is_current': (lambda es: bool(es) and es[-1].new_value is cfg.__fn_or_cls__)(
+          cfg.__argument_history__.get('__fn_or_cls__', [])),
   }
 
 
